@@ -20,7 +20,7 @@ use crate::sched::{OrderSpec, SchedSpec};
 /// tables the input asks for" cannot excuse anything.
 const LARGE_TABLE: isize = 10_000;
 
-const FAULT_KINDS: [&str; 19] = [
+const FAULT_KINDS: [&str; 22] = [
     "truncate",
     "bit_flip",
     "significant_byte",
@@ -34,6 +34,9 @@ const FAULT_KINDS: [&str; 19] = [
     "hostile_identifier",
     "backend_garbage",
     "nesting_bomb",
+    "insert_attribute",
+    "swap_type",
+    "duplicate_item",
     "env_dir_named_like_module",
     "env_dangling_symlink",
     "env_out_dir_is_file",
@@ -369,6 +372,110 @@ fn apply_byte_fault(rng: &mut Rng, kind: &str, files: &mut [(String, Vec<u8>)]) 
                 text.push_str(&form);
             }
             *bytes = text.into_bytes();
+        }
+        "insert_attribute" => {
+            // A syntactically valid attribute in front of a random line: keeps the file
+            // parsable most of the time and drives the semantic error paths.
+            let Ok(text) = std::str::from_utf8(bytes) else {
+                return false;
+            };
+            let n = boundary_values(rng, None);
+            let menu = [
+                "#[packed]".to_string(),
+                format!("#[align({n})]"),
+                format!("#[size({n})]"),
+                "#[base]".to_string(),
+                format!("#[singleton({n})]"),
+                format!("#[index({n})]"),
+                format!("#[address({n})]"),
+                "#[defaultable]".to_string(),
+                "#[default]".to_string(),
+                "#[copyable, cloneable]".to_string(),
+                "#[calling_convention(\"nonsense\")]".to_string(),
+                "#[calling_convention(5)]".to_string(),
+                "#[doc = 5]".to_string(),
+                "#[doc = ident]".to_string(),
+                "#[unknown_attribute(1, \"two\", three)]".to_string(),
+                "#[size(1, 2)]".to_string(),
+                "#[size = 4]".to_string(),
+                "#[size(\"4\")]".to_string(),
+                "#[address]".to_string(),
+                "/// a doc comment".to_string(),
+                "#![doc = \"inner\"]".to_string(),
+            ];
+            let attr = rng.pick(&menu).clone();
+            let mut lines: Vec<String> = text.lines().map(|l| l.to_string()).collect();
+            let at = rng.below(lines.len() + 1);
+            lines.insert(at, attr);
+            *bytes = (lines.join("\n") + "\n").into_bytes();
+        }
+        "swap_type" => {
+            // Replace the type after a `:` or `->` by another type expression of the file or
+            // from a menu of odd ones.
+            let Ok(text) = std::str::from_utf8(bytes) else {
+                return false;
+            };
+            let mut sites: Vec<(usize, usize)> = vec![];
+            let b = text.as_bytes();
+            let mut i = 0;
+            while i < b.len() {
+                let after = if b[i] == b':' && i + 1 < b.len() && b[i + 1] == b' ' {
+                    Some(i + 2)
+                } else if b[i] == b'>' && i > 0 && b[i - 1] == b'-' {
+                    Some(i + 1)
+                } else {
+                    None
+                };
+                if let Some(start) = after {
+                    let mut j = start;
+                    let mut depth = 0i32;
+                    while j < b.len() {
+                        match b[j] {
+                            b'[' | b'<' => depth += 1,
+                            b']' | b'>' => depth -= 1,
+                            b',' | b';' | b')' | b'{' | b'\n' if depth <= 0 => break,
+                            _ => {}
+                        }
+                        j += 1;
+                    }
+                    if j > start {
+                        sites.push((start, j));
+                    }
+                }
+                i += 1;
+            }
+            if sites.is_empty() {
+                return false;
+            }
+            let (a, e) = *rng.pick(&sites);
+            let (c, d) = *rng.pick(&sites);
+            let menu = [
+                "void", "[void; 4]", "*const void", "[u8; 0]", "unknown<0>", "[unknown<4>; 2]",
+                "*mut *const *mut u8", "u128", "[[u8; 2]; 0]", "Self", "bool",
+                "[u64; 2305843009213693952]", "[[u8; 4294967296]; 4294967296]",
+            ];
+            let replacement = if rng.chance(1, 2) {
+                text[c..d].to_string()
+            } else {
+                rng.pick(&menu).to_string()
+            };
+            let mut t = text.to_string();
+            t.replace_range(a..e, &format!(" {replacement}"));
+            *bytes = t.into_bytes();
+        }
+        "duplicate_item" => {
+            let Ok(text) = std::str::from_utf8(bytes) else {
+                return false;
+            };
+            let chunks = crate::minimise::top_level_chunks(text);
+            if chunks.is_empty() {
+                return false;
+            }
+            let mut chunks = chunks;
+            let c = rng.pick(&chunks).clone();
+            let at = rng.below(chunks.len() + 1);
+            chunks.insert(at, c);
+            *bytes = chunks.concat().into_bytes();
         }
         "nesting_bomb" => {
             let depth = *rng.pick(&[8usize, 64, 512, 4096]);
